@@ -123,4 +123,244 @@ theorem decode_codes (root : TDict) (p : Bytes) (d' : TDict) (hp : walk root p =
     simp only [List.map_cons, List.flatten_cons, List.append_assoc, trieDecode] at ih ⊢
     rw [decode_code root e.1 root e.2 _ he, ih]
 
+
+/-! ### ToUnicode -/
+
+/-- A sequence of `add_cid2unichr` assignments. -/
+def putAll (ps : List (Int × List Nat)) (m : UMap) : UMap :=
+  ps.foldl (fun m p => umapPut m p.1 p.2) m
+
+theorem putAll_nil (m : UMap) : putAll [] m = m := rfl
+
+theorem putAll_cons (p : Int × List Nat) (ps : List (Int × List Nat)) (m : UMap) :
+    putAll (p :: ps) m = putAll ps (umapPut m p.1 p.2) := rfl
+
+theorem putAll_append (a b : List (Int × List Nat)) (m : UMap) :
+    putAll (a ++ b) m = putAll b (putAll a m) := by
+  simp [putAll, List.foldl_append]
+
+theorem putAll_quirkFree : ∀ (ps : List (Int × List Nat)) (m : UMap), quirkFree ps m = true →
+    putAll ps m = ps.reverse ++ m
+  | [], m, _ => by simp [putAll]
+  | (c, u) :: rest, m, h => by
+    simp only [quirkFree, Bool.and_eq_true, Bool.not_eq_true', Bool.and_eq_false_iff] at h
+    obtain ⟨h1, h2⟩ := h
+    have hput : umapPut m c u = (c, u) :: m := by
+      unfold umapPut
+      rw [if_neg]
+      rintro ⟨hu, hl⟩
+      rcases h1 with h1 | h1
+      · simp [hu] at h1
+      · simp [hl] at h1
+    rw [putAll_cons, hput, putAll_quirkFree rest _ h2]
+    simp
+
+theorem bfchar_fold : ∀ (es : List (Bytes × Bytes)) (m : UMap),
+    foldEntries bfcharEntry (chop2 (es.flatMap (fun e => [Tok.str e.1, Tok.str e.2]))) m
+      = .ok (putAll (es.map (fun e => ((nunpack e.1 : Int), utf16Ignore e.2))) m)
+  | [], m => by simp [chop2, foldEntries, putAll]
+  | e :: rest, m => by
+    simp only [List.flatMap_cons, List.cons_append, List.nil_append, chop2, foldEntries, bfcharEntry, addCid,
+      List.map_cons, putAll_cons]
+    exact bfchar_fold rest _
+
+def packBytes (v : Nat) : Bytes :=
+  [UInt8.ofNat (v / 16777216 % 256), UInt8.ofNat (v / 65536 % 256), UInt8.ofNat (v / 256 % 256),
+   UInt8.ofNat (v % 256)]
+
+theorem pack32_ok (v : Nat) (h : v < 4294967296) : pack32 v = .ok (packBytes v) := by
+  simp [pack32, packBytes, h]
+
+theorem takeLast_pack (n v : Nat) (h1 : 1 ≤ n) (h4 : n ≤ 4) : takeLast n (packBytes v) = natToBE n v := by
+  have e3 : v / 256 / 256 = v / 65536 := by rw [Nat.div_div_eq_div_mul]
+  have e4 : v / 65536 / 256 = v / 16777216 := by rw [Nat.div_div_eq_div_mul]
+  rcases n with _ | _ | _ | _ | _ | n
+  · omega
+  · simp [takeLast, packBytes, natToBE]
+  · simp [takeLast, packBytes, natToBE]
+  · simp [takeLast, packBytes, natToBE, e3]
+  · simp [takeLast, packBytes, natToBE, e3, e4]
+  · omega
+
+
+theorem rangeLoop_ok (pfx : Bytes) (base vlen : Nat) (key0 : Int) : ∀ (n i : Nat) (m : UMap),
+    base + i + n ≤ 4294967296 →
+    rangeLoop pfx base vlen key0 n i m = .ok (putAll ((List.range n).map (fun j =>
+      (key0 + ((i + j : Nat) : Int), utf16Ignore (pfx ++ takeLast vlen (packBytes (base + (i + j))))))) m)
+  | 0, i, m, _ => by simp [rangeLoop, putAll]
+  | n + 1, i, m, h => by
+    rw [rangeLoop, pack32_ok (base + i) (by omega)]
+    simp only
+    rw [rangeLoop_ok pfx base vlen key0 n (i + 1) _ (by omega), range_succ_map, putAll_cons]
+    simp only [Nat.add_zero]
+    congr 2
+    apply List.map_congr_left
+    intro j _
+    have : i + 1 + j = i + (j + 1) := by omega
+    rw [this]
+
+theorem arrLoop_ok : ∀ (n k : Nat) (ds : List Bytes) (m : UMap),
+    arrLoop n (k : Int) (ds.map AElem.str) m = .ok (putAll (zipFrom k (ds.take n)) m)
+  | 0, k, ds, m => by simp [arrLoop, zipFrom, putAll]
+  | n + 1, k, [], m => by simp [arrLoop, zipFrom, putAll]
+  | n + 1, k, d :: ds, m => by
+    simp only [List.map_cons, arrLoop, addCid, List.take_succ_cons, zipFrom, putAll_cons]
+    have := arrLoop_ok n (k + 1) ds (umapPut m (k : Int) (utf16Ignore d))
+    simpa using this
+
+theorem takeLast4_length (d : Bytes) : (takeLast 4 d).length ≤ 4 ∧ (d ≠ [] → 1 ≤ (takeLast 4 d).length) := by
+  unfold takeLast
+  simp only [show (4 : Nat) ≠ 0 by decide, if_false, List.length_drop]
+  constructor
+  · omega
+  · intro h
+    have : 0 < d.length := List.length_pos_iff.mpr h
+    omega
+
+theorem pow256_le (n : Nat) (h : n ≤ 4) : 256 ^ n ≤ 4294967296 := by
+  rcases n with _ | _ | _ | _ | _ | n <;> simp at h ⊢ <;> omega
+
+theorem bfrangeEntry_ok (e : REntry) (m : UMap) (h : entryOk e = true) :
+    bfrangeEntry m (Tok.str e.lo, Tok.str e.hi, dstTok e.dst) = .ok (putAll (rangePairs e) m) := by
+  obtain ⟨lo, hi, dst⟩ := e
+  simp only [entryOk, Bool.and_eq_true, beq_iff_eq] at h
+  obtain ⟨hlen, hd⟩ := h
+  cases dst with
+  | arr ds =>
+    simp only [dstTok, bfrangeEntry, hlen, ne_eq, not_true_eq_false, if_false, rangePairs]
+    exact arrLoop_ok _ _ ds m
+  | inc d =>
+    simp only [Bool.and_eq_true, Bool.not_eq_true', List.isEmpty_eq_false_iff, decide_eq_true_eq] at hd
+    obtain ⟨hne, hov⟩ := hd
+    obtain ⟨hl4, hl1⟩ := takeLast4_length d
+    have hl1 := hl1 hne
+    have hpow := pow256_le _ hl4
+    simp only [dstTok, bfrangeEntry, hlen, ne_eq, not_true_eq_false, if_false, rangePairs]
+    rw [rangeLoop_ok _ _ _ _ _ _ _ (by omega)]
+    congr 2
+    apply List.map_congr_left
+    intro j _
+    simp only [Nat.zero_add, incBE, takeLast_pack _ _ hl1 hl4, Int.natCast_add]
+
+theorem bfrange_fold : ∀ (es : List REntry) (m : UMap), es.all entryOk = true →
+    foldEntries bfrangeEntry (chop3 (es.flatMap renderREntry)) m = .ok (putAll (es.flatMap rangePairs) m)
+  | [], m, _ => by simp [chop3, foldEntries, putAll]
+  | e :: rest, m, h => by
+    simp only [List.all_cons, Bool.and_eq_true] at h
+    simp only [List.flatMap_cons, renderREntry, List.cons_append, List.nil_append, chop3, foldEntries,
+      bfrangeEntry_ok e m h.1, putAll_append]
+    exact bfrange_fold rest _ h.2
+
+
+/-! ### the token machine -/
+
+theorem runToks_append : ∀ (a b : List Tok) (st : PState),
+    runToks (a ++ b) st = match runToks a st with
+      | .ok st' => runToks b st'
+      | .error e => .error e
+  | [], b, st => by simp [runToks]
+  | t :: a, b, st => by
+    simp only [List.cons_append, runToks]
+    cases stepTok st t with
+    | error e => rfl
+    | ok st' => exact runToks_append a b st'
+
+def notKw : Tok → Bool
+  | .kw _ => false
+  | _ => true
+
+theorem runToks_push : ∀ (ts : List Tok) (st : PState), ts.all notKw = true →
+    runToks ts st = .ok { st with stack := ts.reverse ++ st.stack }
+  | [], st, _ => by simp [runToks]
+  | t :: ts, st, h => by
+    simp only [List.all_cons, Bool.and_eq_true] at h
+    have ht : stepTok st t = .ok { st with stack := t :: st.stack } := by
+      cases t <;> simp_all [stepTok, notKw]
+    simp only [runToks, ht]
+    rw [runToks_push ts _ h.2]
+    simp
+
+theorem doKw_beginbfchar (st : PState) (h : st.inCmap = true) :
+    doKeyword st "beginbfchar" = .ok { st with stack := [] } := by
+  simp [doKeyword, h, popallKeywords]
+
+theorem doKw_beginbfrange (st : PState) (h : st.inCmap = true) :
+    doKeyword st "beginbfrange" = .ok { st with stack := [] } := by
+  simp [doKeyword, h, popallKeywords]
+
+theorem doKw_endbfchar (st : PState) (h : st.inCmap = true) (m : UMap)
+    (hf : foldEntries bfcharEntry (chop2 st.stack.reverse) st.map = .ok m) :
+    doKeyword st "endbfchar" = .ok { st with stack := [], map := m } := by
+  simp [doKeyword, h, popallKeywords, hf]
+
+theorem doKw_endbfrange (st : PState) (h : st.inCmap = true) (m : UMap)
+    (hf : foldEntries bfrangeEntry (chop3 st.stack.reverse) st.map = .ok m) :
+    doKeyword st "endbfrange" = .ok { st with stack := [], map := m } := by
+  simp [doKeyword, h, popallKeywords, hf]
+
+theorem chars_notKw (es : List (Bytes × Bytes)) :
+    (es.flatMap (fun e => [Tok.str e.1, Tok.str e.2])).all notKw = true := by
+  simp [List.all_flatMap, notKw]
+
+theorem ranges_notKw (es : List REntry) : (es.flatMap renderREntry).all notKw = true := by
+  simp only [List.all_flatMap, List.all_eq_true]
+  intro e _ t ht
+  simp only [renderREntry, List.mem_cons, List.not_mem_nil, or_false] at ht
+  rcases ht with rfl | rfl | rfl
+  · rfl
+  · rfl
+  · cases e.dst <;> rfl
+
+theorem runSec (sec : Sec) (st : PState) (hc : st.inCmap = true) (hok : secOk sec = true) :
+    runToks (renderSec sec) st = .ok { st with stack := [], map := putAll (secPairs sec) st.map } := by
+  cases sec with
+  | chars es =>
+    simp only [renderSec, List.cons_append, List.nil_append, runToks, stepTok]
+    rw [doKw_beginbfchar _ (by simpa using hc)]
+    simp only
+    rw [runToks_append, runToks_push _ _ (chars_notKw es)]
+    simp only [runToks, stepTok, List.append_nil]
+    rw [doKw_endbfchar _ (by simpa using hc) _ (by simp only [List.reverse_reverse]; exact bfchar_fold es _)]
+    simp only [secPairs]
+  | ranges es =>
+    simp only [secOk] at hok
+    simp only [renderSec, List.cons_append, List.nil_append, runToks, stepTok]
+    rw [doKw_beginbfrange _ (by simpa using hc)]
+    simp only
+    rw [runToks_append, runToks_push _ _ (ranges_notKw es)]
+    simp only [runToks, stepTok, List.append_nil]
+    rw [doKw_endbfrange _ (by simpa using hc) _ (by simp only [List.reverse_reverse]; exact bfrange_fold es _ hok)]
+    simp only [secPairs]
+
+theorem runSecs : ∀ (secs : List Sec) (st : PState), st.inCmap = true → st.stack = [] → secs.all secOk = true →
+    runToks (secs.flatMap renderSec) st = .ok { st with map := putAll (specPairs secs) st.map }
+  | [], st, _, _, _ => by simp [runToks, specPairs, putAll]
+  | sec :: rest, st, hc, hs, hok => by
+    simp only [List.all_cons, Bool.and_eq_true] at hok
+    simp only [List.flatMap_cons]
+    rw [runToks_append, runSec sec st hc hok.1]
+    simp only
+    rw [runSecs rest _ (by simpa using hc) rfl hok.2]
+    simp only [specPairs, List.flatMap_cons, putAll_append]
+    cases st
+    simp_all
+
+theorem run_header : runToks headerToks PState.init = .ok PState.init := by
+  simp [headerToks, runToks, stepTok, doKeyword, popallKeywords, PState.init]
+
+theorem run_trailer (st : PState) (hs : st.stack = []) :
+    (match runToks trailerToks st with
+     | .ok st' => Except.ok st'.map
+     | .error e => .error e) = (.ok st.map : Except Err UMap) := by
+  simp [trailerToks, runToks, stepTok, doKeyword, popallKeywords, hs]
+
+theorem parse_render (secs : List Sec) (hok : secs.all secOk = true) :
+    parseToUnicode (render secs) = .ok (putAll (specPairs secs) []) := by
+  unfold parseToUnicode render
+  rw [List.append_assoc, runToks_append, run_header]
+  simp only
+  rw [runToks_append, runSecs secs PState.init rfl rfl hok]
+  simp only
+  exact run_trailer _ rfl
+
 end PdfVerif.CIDFontLemmas
